@@ -49,8 +49,15 @@ func c05Mux(in []string) []string {
 		hs[i] = mux.Handler(methods[i], paths[i], func(w http.ResponseWriter, r *http.Request, ps denco.Params) {
 			names := make([]string, len(ps))
 			vals := make([]string, len(ps))
+			seen := map[string]int{}
+			for _, p := range ps {
+				seen[p.Name]++
+			}
 			for j, p := range ps {
 				names[j], vals[j] = p.Name, p.Value
+				if seen[p.Name] == 1 {
+					vals[j] = ps.Get(p.Name) // asked by name, as handlers do
+				}
 			}
 			hit = "H " + proto.N(i) + " " + proto.L(names) + " " + proto.L(vals)
 		})
@@ -107,9 +114,16 @@ func c05Exec(in []string) []string {
 	}
 	names := make([]string, len(params))
 	vals := make([]string, len(params))
+	seen := map[string]int{}
+	for _, p := range params {
+		seen[p.Name]++
+	}
 	for i, p := range params {
 		names[i] = p.Name
 		vals[i] = p.Value
+		if seen[p.Name] == 1 && i%2 == 1 {
+			vals[i] = params.Get(p.Name) // asked by name
+		}
 	}
 	return []string{"F", proto.N(data.(int)), proto.L(names), proto.L(vals)}
 }
